@@ -39,8 +39,14 @@ Theorem C10_phase_error_ge_magnitude_error : forall e : env RA, (0 < coh e)%R ->
 Proof. exact (rad_error_ge_mag_error angle unwrap). Qed.
 Theorem C10_deg_form : forall e : env RA, g_Hxy_deg_error_csd RA F e = (g_Hxy_rad_error_csd RA F e * (180 / PI))%R.
 Proof. intros e. reflexivity. Qed.
-(* PARTIAL: the upper bound rad_error <= (pi/2) mag_error (Jordan's inequality) and the g2 -> 1 limit are not proved here;
-   they are checked numerically on every sampled bin by the direct oracle. *)
+(* ... and at most pi/2 times it (Jordan's inequality sin y >= 2y/pi, proved in Jordan.v), with both vanishing at coherence 1 *)
+Theorem C10_phase_error_le_half_pi_magnitude_error : forall e : env RA, (0 < coh e)%R -> (coh e <= 1)%R -> (0 < e_navg e)%R ->
+  (g_Hxy_rad_error_csd RA F e <= PI / 2 * g_Hxy_mag_error_csd RA F e)%R.
+Proof. exact (rad_error_le_half_pi_mag_error angle unwrap). Qed.
+Theorem C10_errors_vanish_at_full_coherence : forall e : env RA, coh e = 1%R ->
+  g_Hxy_mag_error_csd RA F e = 0%R /\ g_Hxy_rad_error_csd RA F e = 0%R.
+Proof. exact (errors_vanish_at_full_coherence angle unwrap). Qed.
 End C10.
 Print Assumptions C10_coh_dev.
 Print Assumptions C10_phase_error_ge_magnitude_error.
+Print Assumptions C10_phase_error_le_half_pi_magnitude_error.
